@@ -186,6 +186,8 @@ static void on_alarm(int s){ char b[400]; int n=snprintf(b,sizeof(b),"%ld TIMEOU
 /* called by the sanitizer runtime right before it ends the process: names the tuple that was running */
 void __sanitizer_set_death_callback(void (*cb)(void));
 static void on_death(void){ char b[400]; int n=snprintf(b,sizeof(b),"\nC15-DEATH idx=%ld ord=%ld desc=%s\n",g_cur,g_ord,g_desc); if(write(2,b,n)<0){} }
+/* signals the sanitizer runtime does not turn into a report (SIGILL from a compiler-inserted trap, SIGABRT): name the tuple, exit like a report */
+static void on_signal(int sig){ char b[400]; int n=snprintf(b,sizeof(b),"\nC15-SIGNAL %d\nC15-DEATH idx=%ld ord=%ld desc=%s\n",sig,g_cur,g_ord,g_desc); if(write(2,b,n)<0){} _exit(77); }
 static int skipped(long ord){ int i; for(i=0;i<g_nskip;i++)if(g_skip[i]==ord)return 1; return 0; }
 
 /* ------------------------------------------------------- template labelling */
@@ -444,6 +446,7 @@ int main(int argc,char **argv){
   cf=fopen(cases,"r"); if(!cf)return 2;
   signal(SIGPROF,on_alarm);
   __sanitizer_set_death_callback(on_death);
+  signal(SIGILL,on_signal); signal(SIGABRT,on_signal);
   while(getline(&line,&lcap,cf)>0){
     char *sv,*tok; long idx; char mode; acc A; sbuf out; struct itimerval it; long v[40]; int nv=0; cset states;
     memset(&A,0,sizeof(A)); memset(&out,0,sizeof(out)); memset(&states,0,sizeof(states));
